@@ -137,7 +137,7 @@ async fn call(svc: &mut srv::HttpSvc, req: HttpRequest<FramesBody>) -> (Result<H
 pub fn check(rep: &Reporter) {
 	let thorough = rep.tier.thorough();
 	rep.set_rule(
-		"(A) 10 HTTP methods × content-type values (the six accepted spellings in every letter-case variant — all 2^k for k ≤ 15 letters, 4 styles per word for longer ones —, 22 near misses, missing header, duplicated header) with a fixed valid call as body; (B) 19 bodies (calls, notification, batches, invalid, truncated, non-JSON, 0/1/126/127/128 leading blanks) × every split into ≤3 (thorough 4) consecutive chunks × {no extra chunk, an empty chunk or a blank-only chunk inserted at every boundary incl. front and back} × Content-Length {absent, exact}; differential oracle: (status, body, invocation log) equals the single-frame request of the same bytes. Distinct by (method, content-type) resp. (body, frame sequence, content-length); all non-trivial.",
+		"(A) 10 HTTP methods × content-type values (the six accepted spellings in every letter-case variant — all 2^k for k ≤ 15 letters, 4 styles per word for longer ones —, 22 near misses, missing header, duplicated header) with a fixed valid call as body; (B) 19 bodies (calls, notification, batches, invalid, truncated, non-JSON, 0/1/126/127/128 leading blanks) × splits into consecutive chunks (quick: all splits into ≤3 chunks, thinned for bodies > 90 bytes, and the 4-chunk splits touching an end or on a stride; thorough: all splits into ≤4 chunks of bodies ≤ 64 bytes and into 5 chunks of bodies ≤ 40 bytes) × {no extra chunk, an empty chunk or a blank-only chunk inserted at every boundary incl. front and back} × Content-Length {absent, exact}; differential oracle: (status, body, invocation log) equals the single-frame request of the same bytes. Distinct by (method, content-type) resp. (body, frame sequence, content-length); all non-trivial.",
 	);
 	rep.assume("the tower service Server uses per connection is called directly; hyper's own framing is not in the loop");
 	let cfg = || srv::cfg_builder().build();
@@ -232,8 +232,9 @@ pub fn check(rep: &Reporter) {
 
 	// ---- (B) chunking differential
 	let bodies = bodies();
-	let maxchunks = if thorough { 4 } else { 3 };
-	// work items: (body index, split points)
+	// work items: (body index, split points). Quick: every 1- and 2-cut split (pairs thinned in the middle of long bodies)
+	// and the 3-cut splits that touch an end or fall on a stride; thorough: every 1-, 2- and 3-cut split of bodies up to
+	// 64 bytes (strided beyond), and every 4-cut split (5 chunks) of bodies up to 40 bytes.
 	let mut items: Vec<(usize, Vec<usize>)> = Vec::new();
 	for (bi, b) in bodies.iter().enumerate() {
 		let n = b.len();
@@ -241,17 +242,20 @@ pub fn check(rep: &Reporter) {
 		for a in 1..n {
 			items.push((bi, vec![a]));
 			for c in a + 1..n {
-				// keep the pair sweep dense near both ends and sparse in the middle for long bodies (quick tier)
 				if !thorough && n > 90 && a > 4 && c < n - 4 && (a + c) % 3 != 0 {
 					continue;
 				}
 				items.push((bi, vec![a, c]));
-				if maxchunks >= 4 {
-					for d in c + 1..n {
-						if (a + c + d) % 7 != 0 && !(a <= 2 || d >= n - 2) {
-							continue;
+				for d in c + 1..n {
+					let all = thorough && n <= 64;
+					if !all && (a + c + d) % 7 != 0 && !(a <= 2 || d >= n - 2) {
+						continue;
+					}
+					items.push((bi, vec![a, c, d]));
+					if thorough && n <= 40 {
+						for e in d + 1..n {
+							items.push((bi, vec![a, c, d, e]));
 						}
-						items.push((bi, vec![a, c, d]));
 					}
 				}
 			}
